@@ -115,6 +115,30 @@ func runC15(c *Ctx) {
 			}
 		})
 		c.Check("C15.X2", "SerializeCompact:format", fm == `"%s.%s.%s"`, ser.Pos(), "compact serialisation format "+fm)
+		// each segment is the unpadded base64url text of its part — the payload too, whatever the headers say (the
+		// parser decodes every segment): "" (detached) or EncodeToString(payload), nothing else
+		okSeg := false
+		var segs []string
+		forEachInstr(ser, func(in ssa.Instruction) {
+			cl, ok := in.(*ssa.Call)
+			if !ok || cl.Call.StaticCallee() == nil || cl.Call.StaticCallee().String() != "fmt.Sprintf" || len(cl.Call.Args) != 2 {
+				return
+			}
+			args, okV := c.varargValues(cl.Call.Args[1])
+			if !okV || len(args) != 3 {
+				return
+			}
+			enc := func(of string) string {
+				return "(*encoding/base64.Encoding).EncodeToString(global:encoding/base64.RawURLEncoding," + of + ")"
+			}
+			for _, a := range args {
+				segs = append(segs, c.Path(a, nil))
+			}
+			okSeg = strings.HasPrefix(segs[0], enc("")[:len(enc(""))-1]) && strings.Contains(segs[0], ".joseHeaders") &&
+				(segs[1] == `phi(""|`+enc("$0.Payload")+`)` || segs[1] == "phi("+enc("$0.Payload")+`|"")`) &&
+				segs[2] == enc("$0.signature")
+		})
+		c.Check("C15.X2", "SerializeCompact:segments", okSeg, ser.Pos(), fmt.Sprintf("segments: %v (expected b64url(headers JSON), \"\" or b64url(payload), b64url(signature))", segs))
 	}
 	c.Min("C15.X2", 8)
 
@@ -601,6 +625,51 @@ func runC16(c *Ctx) {
 		}
 		c.Check("C16.T1", "isSecp256k1:both-kty-and-crv", ok1 && ok2, is.Pos(), fmt.Sprintf("isSecp256k1 requires kty EC and crv secp256k1 (%v)", rets))
 	}
+	// converting a key is a function of the key: the conversion functions keep no state between calls (a cache keyed by
+	// the key's address hands out a stale JWK once the caller reuses the key struct)
+	{
+		var entries []*ssa.Function
+		for _, e := range []*ssa.Function{c.Fn("util/pubkey", "GetPublicKeyJWK"), c.Method("jwsutil", "JWK", "MarshalJSON"), c.Method("jwsutil", "JWK", "UnmarshalJSON"), c.Fn("jwsutil", "GetED25519PublicKey")} {
+			if e != nil {
+				entries = append(entries, e)
+			}
+		}
+		if len(entries) < 3 {
+			c.Unresolved("C16.T1", "pubkey.GetPublicKeyJWK / (*jwsutil.JWK).MarshalJSON / UnmarshalJSON")
+		} else {
+			c.statelessRule("C16.T1", "key conversion", entries)
+		}
+	}
+	// what marshalSecp256k1 writes carries the registered names, not whatever spelling the wrapper was labelled with (the
+	// encoder is selected by a case-insensitive match of the labels)
+	{
+		jwkT := c.NamedType("jwsutil", "jsonWebKey")
+		n, okLab := 0, true
+		var got []string
+		forEachInstr(ms, func(in ssa.Instruction) {
+			st, ok := in.(*ssa.Store)
+			if !ok {
+				return
+			}
+			if fa, isFA := st.Addr.(*ssa.FieldAddr); isFA && types.Identical(derefT(fa.X.Type()), jwkT) {
+				switch fieldName(fa.X.Type(), fa.Field) {
+				case "Kty":
+					n++
+					if c.Path(st.Val, nil) != `"EC"` {
+						okLab = false
+						got = append(got, "Kty="+c.Path(st.Val, nil))
+					}
+				case "Crv":
+					n++
+					if c.Path(st.Val, nil) != `"secp256k1"` {
+						okLab = false
+						got = append(got, "Crv="+c.Path(st.Val, nil))
+					}
+				}
+			}
+		})
+		c.Check("C16.T1", "marshalSecp256k1:registered-names", okLab && n > 0, ms.Pos(), fmt.Sprintf("the secp256k1 encoder writes kty \"EC\" and crv \"secp256k1\" (%d store(s); deviating: %v)", n, got))
+	}
 	// the wrapper's own key-type and curve labels are those of the JSON just read, on every accepting path of
 	// UnmarshalJSON (MarshalJSON picks the secp256k1 encoder by these labels: a label left over from an earlier value of
 	// a reused wrapper sends the key to the wrong encoder)
@@ -673,7 +742,7 @@ func runC16(c *Ctx) {
 	} else {
 		c.Unresolved("C16.T1", "(*jwsutil.JWK).UnmarshalJSON")
 	}
-	c.Min("C16.T1", 6)
+	c.Min("C16.T1", 8)
 	c.Assume("go-jose encodes NIST and Ed25519 keys at full width; btcec.S256 parameters")
 }
 
